@@ -16,7 +16,7 @@ Lit(c, n, i) == [cls |-> c, n |-> n, isint |-> i, canon |-> TRUE]
 Lits == { Lit("int", n, TRUE) : n \in IntVals }
    \cup { Lit(c, n, i) : c \in {"frac", "exp"}, n \in {Near(3, 1), Near(3, 300), Near(6, 1)}, i \in BOOLEAN }
    \cup { [Lit("int", Near(3, 0), TRUE) EXCEPT !.canon = FALSE] }   \* -0
-   \cup { Lit(c, Near(3, 0), FALSE) : c \in {"null", "true", "false", "str", "time", "b64", "b64nc", "arr", "obj"} }
+   \cup { Lit(c, Near(3, 0), FALSE) : c \in {"null", "true", "false", "str", "time", "timelax", "b64", "b64nc", "arr", "obj"} }
 
 \* the intended decoder: a set of allowed results (nondeterministic only where the property is)
 Res(out, isnil, n, same) == [out |-> out, isnil |-> isnil, n |-> n, same |-> same, typeok |-> TRUE, both |-> FALSE]
@@ -32,7 +32,8 @@ Decode(kind, nullable, lit) ==
           [] OTHER -> {Reject}
     ELSE IF kind = "bool" THEN (IF lit.cls \in {"true", "false"} THEN {Res("accept", FALSE, Near(3, 0), TRUE)} ELSE {Reject})
     ELSE IF kind = "string" THEN (IF lit.cls \in StrClasses THEN {Res("accept", FALSE, Near(3, 0), TRUE)} ELSE {Reject})
-    ELSE IF kind = "time" THEN (IF lit.cls = "time" THEN {Res("accept", FALSE, Near(3, 0), TRUE)} ELSE {Reject})
+    ELSE IF kind = "time" THEN (IF lit.cls = "time" THEN {Res("accept", FALSE, Near(3, 0), TRUE)}
+                                ELSE IF lit.cls = "timelax" THEN {Reject, Res("accept", FALSE, Near(3, 0), TRUE)} ELSE {Reject})
     ELSE (IF lit.cls = "arr" THEN {Reject, Res("accept", FALSE, Near(3, 0), FALSE)} ELSE IF lit.cls = "b64" THEN {Res("accept", FALSE, Near(3, 0), TRUE)}
           ELSE IF lit.cls = "b64nc" THEN {Reject, Res("accept", FALSE, Near(3, 0), TRUE)} ELSE {Reject})
 
